@@ -24,7 +24,7 @@ use serde_json::json;
 use crate::{
     ops::{all_ops, classes, Op, OpRel},
     rec::{col_name, AbsEv, Rec},
-    spy::{Item, RelEv, SpyCircuit, SpyLog},
+    spy::{Item, RelEv, SpyCircuit, SpyLog, V1Circuit},
     F,
 };
 
@@ -47,6 +47,11 @@ impl Dig {
         for t in ts {
             self.tok(*t as u128);
         }
+    }
+    /// a small field element as one token
+    pub fn val_small(&mut self, v: &F) {
+        let x = mzkh::fe_big(v).to_u64_digits().first().copied().unwrap_or(0);
+        self.tok(x as u128);
     }
     pub fn val(&mut self, v: &F) {
         let r = v.to_repr();
@@ -635,6 +640,8 @@ pub fn check_family<C: Circuit<F>>(
     knowns: &[Known<C>],
     small_limit: usize,
     demo: &dyn Fn(usize) -> Option<String>,
+    mbl: usize,
+    v1: bool,
 ) -> Option<FamilyOut> {
     let kind = if name.starts_with("zkir:") { "zkir".to_string() } else { name.split('(').next().unwrap_or(name).to_string() };
     // 1. keygen view, with and without the spy
@@ -650,7 +657,8 @@ pub fn check_family<C: Circuit<F>>(
         }
     };
     let s0_plain = synth(unknown, false, None);
-    let transparent = matches!(&s0_plain, Ok(p) if p.evs == s0.evs);
+    // (advice values are not compared: some gadgets draw random auxiliary witnesses)
+    let transparent = matches!(&s0_plain, Ok(p) if first_diff(&s0.evs, &p.evs).is_none());
     if !transparent && std::env::var("C09_DEBUG").is_ok() {
         if let Ok(p) = &s0_plain {
             eprintln!("spy diff {name}: {:?} (len {} vs {})", first_diff(&s0.evs, &p.evs), s0.evs.len(), p.evs.len());
@@ -709,6 +717,47 @@ pub fn check_family<C: Circuit<F>>(
         &format!("layout {} ; {}", header(&s0.cs), render_items(&s0, false)),
         &answer,
     );
+
+    p2r_case(ctx, &s0, mbl);
+
+    // the dual-pass planner (v1.rs) on the same circuits: same oracle, no model
+    if v1 {
+        let u1 = V1Circuit { inner: unknown, unknown };
+        match synth(&u1, false, None) {
+            Ok(t0) => {
+                ctx.count("v1_families");
+                for kn in knowns.iter().take(if ctx.quick() { 3 } else { 8 }) {
+                    let c1 = V1Circuit { inner: &kn.circuit, unknown };
+                    match synth(&c1, false, None) {
+                        Ok(t) => {
+                            ctx.count("v1_witness_runs");
+                            if let Some((i, a, b)) = first_diff(&t0.evs, &t.evs) {
+                                ctx.oracle_fail(
+                                    &format!("v1-struct:{name}"),
+                                    "under the V1 floor planner the circuit structure differs between the unknown witness and a concrete witness",
+                                    json!({"circuit": name, "class": kn.class, "witness": kn.witness, "event": i, "keygen": a, "witness_run": b}),
+                                );
+                            }
+                            if let Some(c) = cell_collision(&t.evs) {
+                                ctx.oracle_fail(&format!("v1-overlap:{name}"), "V1 floor planner places two regions on the same cell", json!({"circuit": name, "class": kn.class, "cell": c}));
+                            }
+                        }
+                        Err(e) => {
+                            if kn.sat {
+                                ctx.oracle_fail(&format!("v1-synth:{name}"), "V1 synthesis fails for a satisfying witness", json!({"circuit": name, "class": kn.class, "error": e}));
+                            }
+                        }
+                    }
+                }
+            }
+            Err(e) => {
+                ctx.count("v1_keygen_synthesis_failed");
+                if std::env::var("C09_DEBUG").is_ok() {
+                    eprintln!("v1 {name}: {e}");
+                }
+            }
+        }
+    }
 
     // 3. every witness class against the keygen view
     let e0 = erased(&s0.evs);
@@ -1048,6 +1097,80 @@ fn prove_flow(ctx: &mut Ctx, srs: &mut SrsCache, rel: &OpRel, name: &str, cls: &
     }
 }
 
+/// Range table (`pow2range.rs: load_table`): the rows loaded against the model's rows for the
+/// tags queried during synthesis.
+fn p2r_case(ctx: &mut Ctx, s: &Synth, mbl: usize) {
+    let log = s.log.as_ref().unwrap();
+    // table cells of the block named "pow2range table"
+    let mut cells: Vec<(usize, usize, F)> = vec![];
+    let mut inside = false;
+    for e in &s.evs {
+        match e {
+            AbsEv::Enter(n) => inside = n == "pow2range table",
+            AbsEv::Exit => inside = false,
+            AbsEv::Fix(c, r, v) if inside => cells.push((*c, *r, *v)),
+            _ => {}
+        }
+    }
+    let Some(t_tag) = cells.iter().map(|c| c.0).min() else { return };
+    let mut d = Dig::default();
+    let mut rows = 0usize;
+    let n = cells.iter().map(|c| c.1 + 1).max().unwrap_or(0);
+    for r in 0..n {
+        let tag = cells.iter().find(|c| c.0 == t_tag && c.1 == r).map(|c| c.2);
+        let val = cells.iter().find(|c| c.0 == t_tag + 1 && c.1 == r).map(|c| c.2);
+        if let (Some(t), Some(v)) = (tag, val) {
+            d.val_small(&t);
+            d.val_small(&v);
+            rows += 1;
+        }
+    }
+    // tags queried: values of the fixed tag column (allocated right before the table columns)
+    let mut tags: Vec<u64> = vec![];
+    for it in &log.items {
+        if let Item::Region { passes, .. } = it {
+            for e in passes.last().map(|p| p.as_slice()).unwrap_or(&[]) {
+                if let RelEv::Fix(c, _, Some(v)) = e {
+                    if *c + 1 == t_tag {
+                        let x = mzkh::fe_big(v).to_u64_digits().first().copied().unwrap_or(0);
+                        if !tags.contains(&x) {
+                            tags.push(x);
+                        }
+                    }
+                }
+            }
+        }
+    }
+    tags.sort();
+    ctx.case("p2r", true, &format!("p2r {mbl} {}", mzkh::join(&tags)), &format!("n={rows} D={}", d.0));
+}
+
+/// Which tables `MidnightCircuit::synthesize` loads (configured AND used).
+fn tables_case(ctx: &mut Ctx, rel: &OpRel, unknown: &MidnightCircuit<OpRel>) {
+    use midnight_zk_stdlib::Relation;
+    let Ok(s) = synth(unknown, true, None) else { return };
+    let arch = rel.used_chips();
+    let a = [arch.sha2_256, arch.sha2_512, arch.base64, arch.automaton, arch.keccak_256 || arch.sha3_256, arch.blake2b];
+    let u = rel.op.used_tables();
+    let bits = |b: &[bool; 6]| b.iter().map(|x| if *x { '1' } else { '0' }).collect::<String>();
+    let mut seen: Vec<&str> = vec![];
+    for it in &s.log.as_ref().unwrap().items {
+        if let Item::Table { name } = it {
+            let tok = match name.as_str() {
+                "pow2range table" => "p2r",
+                "spread table" => if arch.sha2_256 { "sha256" } else { "sha512" },
+                "Base64 table" => "base64",
+                "automaton table" => "automaton",
+                _ => if arch.keccak_256 || arch.sha3_256 { "keccak_sha3" } else { "blake2b" },
+            };
+            if seen.last() != Some(&tok) {
+                seen.push(tok);
+            }
+        }
+    }
+    ctx.case("tables", true, &format!("tables {} {}", bits(&a), bits(&u)), &seen.join(" "));
+}
+
 /// Constant cache (`native_chip.rs: cached_fixed`): the constants for which the real chip opens
 /// an "Assign fixed" region, in order, against the model's cache.
 fn cache_case<C: Circuit<F>>(ctx: &mut Ctx, name: &str, cs: &[u64], unknown: &C) {
@@ -1102,6 +1225,8 @@ pub fn run(ctx: &mut Ctx) {
         let rel = OpRel { op: op.clone() };
         let cls = classes(&op, &mut rng, nrand);
         let mbl = 8u8;
+        // the V1 planner only on small circuits in the quick tier
+        let v1 = !ctx.quick() || matches!(op, Op::Add | Op::IsZero | Op::LowerThan(8) | Op::ToLeBits(Some(8), true) | Op::PiNative(5) | Op::JubAdd | Op::Poseidon(2) | Op::VecLimits | Op::Select);
         let unknown = MidnightCircuit::new(&rel, Value::unknown(), Value::unknown(), Some(mbl));
         let knowns: Vec<Known<MidnightCircuit<OpRel>>> = cls
             .iter()
@@ -1114,7 +1239,8 @@ pub fn run(ctx: &mut Ctx) {
             .collect();
         ctx.count(&format!("op:{}", name.split('(').next().unwrap()));
         let demo = |ci: usize| demo_flow(&rel, &cls[ci].w);
-        let _ = check_family(ctx, &mut srs, &name, &unknown, &knowns, small_limit, &demo);
+        let _ = check_family(ctx, &mut srs, &name, &unknown, &knowns, small_limit, &demo, mbl as usize, v1);
+        tables_case(ctx, &rel, &unknown);
         if let Op::FixedSeq(cs) = &op {
             cache_case(ctx, &name, cs, &unknown);
         }
@@ -1153,7 +1279,7 @@ pub fn run(ctx: &mut Ctx) {
                 circuit: MidnightCircuit::new(&rel, Value::known(vec![]), Value::known(w.clone()), Some(8)),
             })
             .collect();
-        let _ = check_family(ctx, &mut srs, &name, &unknown, &knowns, small_limit, &|_| None);
+        let _ = check_family(ctx, &mut srs, &name, &unknown, &knowns, small_limit, &|_| None, 8, false);
     }
     let hashes = VK_HASHES.with(|h| h.borrow().clone());
     ctx.set_extra("vk_hashes", json!(hashes));
